@@ -70,10 +70,10 @@ struct Probe {
 	bool quiet = false;			// no event logging (used to count the library's own allocations)
 	void resetCall() { ev.clear(); log.clear(); plog.clear(); evCount = 0; draws = 0; badThis.clear(); badOrigin.clear(); memset(occ, 0, sizeof occ); }
 };
-inline Rational ScriptedRng::next() noexcept {
+inline UtilT ScriptedRng::next() noexcept {
 	Probe& p = *currentProbe();
 	const size_t i = (size_t) p.draws++;
-	return i < p.sc.rng.size() ? p.sc.rng[i] : Rational{0, 1};
+	return toUtil(i < p.sc.rng.size() ? p.sc.rng[i] : Rational{0, 1});
 }
 }
 
@@ -299,7 +299,7 @@ struct Own : OwnBase<ID, isInj(ID)> {
 	hfsm2::Prong select(const typename Base::Control& c)		{ probeReport(c, ID, M_SELECT); return (hfsm2::Prong) (c._()->probe->sc.sel[ID] - 1); }
 #ifdef HFSM2_ENABLE_UTILITY_THEORY
 	typename Base::Rank    rank   (const typename Base::Control& c)	{ probeReport(c, ID, M_RANK);    return (typename Base::Rank) c._()->probe->sc.rank[ID]; }
-	typename Base::Utility utility(const typename Base::Control& c)	{ probeReport(c, ID, M_UTILITY); return c._()->probe->sc.util[ID]; }
+	typename Base::Utility utility(const typename Base::Control& c)	{ probeReport(c, ID, M_UTILITY); return vf::toUtil(c._()->probe->sc.util[ID]); }
 #endif
 };
 
@@ -325,7 +325,7 @@ static void fwd(typename FSM::State::ConstControl& c, int id, int m, const void*
 static int  fwdSelect(const typename FSM::State::Control& c, int id);
 #ifdef HFSM2_ENABLE_UTILITY_THEORY
 static int  fwdRank(const typename FSM::State::Control& c, int id);
-static vf::Rational fwdUtility(const typename FSM::State::Control& c, int id);
+static vf::UtilT fwdUtility(const typename FSM::State::Control& c, int id);
 #endif
 FX_SPECIALISATIONS
 static void fwd(typename FSM::State::GuardControl& c, int id, int m, const void* self) { probeCall(c, id, m, self, false); }
@@ -336,7 +336,7 @@ static void fwd(typename FSM::State::ConstControl& c, int id, int m, const void*
 static int  fwdSelect(const typename FSM::State::Control& c, int id) { probeReport(c, id, M_SELECT); return c._()->probe->sc.sel[id] - 1; }
 #ifdef HFSM2_ENABLE_UTILITY_THEORY
 static int  fwdRank(const typename FSM::State::Control& c, int id) { probeReport(c, id, M_RANK); return c._()->probe->sc.rank[id]; }
-static vf::Rational fwdUtility(const typename FSM::State::Control& c, int id) { probeReport(c, id, M_UTILITY); return c._()->probe->sc.util[id]; }
+static vf::UtilT fwdUtility(const typename FSM::State::Control& c, int id) { probeReport(c, id, M_UTILITY); return vf::toUtil(c._()->probe->sc.util[id]); }
 #endif
 #endif
 
